@@ -1,0 +1,40 @@
+//go:build verif
+
+package vgirpc
+
+// VerifAsyncEmitter exposes the unexported asyncEmitter to the conformance
+// harness. Each method calls the real one and nothing else.
+type VerifAsyncEmitter struct{ a *asyncEmitter }
+
+// VerifNewAsyncEmitter calls newAsyncEmitter.
+func VerifNewAsyncEmitter(queueSize int, write func(map[string]any)) (*VerifAsyncEmitter, error) {
+	a, err := newAsyncEmitter(queueSize, write)
+	if err != nil {
+		return nil, err
+	}
+	return &VerifAsyncEmitter{a: a}, nil
+}
+
+// Enqueue calls enqueue.
+func (v *VerifAsyncEmitter) Enqueue(record map[string]any) { v.a.enqueue(record) }
+
+// Close calls close.
+func (v *VerifAsyncEmitter) Close() { v.a.close() }
+
+// Is reports whether x is the emitter wrapped by v (hook argument matching).
+func (v *VerifAsyncEmitter) Is(x any) bool { a, ok := x.(*asyncEmitter); return ok && a == v.a }
+
+// VerifAccessLogSampler exposes accessLogSampler.
+type VerifAccessLogSampler struct{ s *accessLogSampler }
+
+// VerifNewAccessLogSampler calls newAccessLogSampler.
+func VerifNewAccessLogSampler(rate float64) (*VerifAccessLogSampler, error) {
+	s, err := newAccessLogSampler(rate)
+	if err != nil {
+		return nil, err
+	}
+	return &VerifAccessLogSampler{s: s}, nil
+}
+
+// Keep calls keep.
+func (v *VerifAccessLogSampler) Keep(record map[string]any) bool { return v.s.keep(record) }
